@@ -1,7 +1,8 @@
 """C10 — binary pack format: lossless round trip, stable published layout (proof).
 
 Tie: G = the two `common_isotopes` tables, `elements`, and the per-element isotope data (Gen/PackTables.lean);
-K = the Lean model `Model/Pack.lean` (encode / decode / attach / packLen / reaction framing / half floats) against the
+K = the Lean model `Model/Pack.lean` (encode / decode / attach / packLen / reaction framing / half floats) and
+`Model/PackStereo.lean` (the cumulene / cis-trans perception that `pack` and `unpack` read: `perceive`, `packFull`, `unpackFull`) against the
 REAL `MoleculeContainer.pack/unpack/pack_len`, `ReactionContainer.pack/unpack/pack_len` running on the pyx2py
 rendering of `_pack_v2.pyx` / `_unpack_v0v2.pyx`: bytes vs bytes, decoded fields vs decoded fields, on structured
 molecules that reach every format limit, on corpus molecules, and on the 4200 published packs of pach/SI.zip.
@@ -29,18 +30,26 @@ LEVEL_TEXT = ('The round trip decode(encode m) = m, bit-for-bit conformance of e
               'is pure bit arithmetic over a finite record layout.')
 LEVEL_NOTE = ('Lean kernel; the model is a hand transcription of the two .pyx files validated by correspondence; the real '
               'side runs the pyx2py rendering (no Cython in the sandbox: compiled-C behaviour such as uninitialised reads is '
-              'outside); zlib trusted; stereo perception (`_stereo_cis_trans_terminals/_centers`) is an input of the model.')
+              'outside); zlib trusted. The stereo perception the format relies on (`cumulenes`, `stereogenic_cumulenes`, '
+              '`_stereo_cis_trans_terminals/_centers`) is inside the model since round 5 (`packFull`/`unpackFull`), compared '
+              'verbatim with the real cached properties; that the walk never errs (`fuel`, empty `pop`) is validated at run time.')
 TECHNIQUE = 'Lean 4 executable model + induction / kernel-evaluated bit lemmas + byte-exact differential testing'
 RULE = ('structured molecules built to hit each format limit (atom numbers 1..4095, degree 0..15, every bond-count residue mod 8, '
         'every element x every tabulated isotope, charge -4..4, H None/0..6, atom/allene/cis-trans stereo, half-range and '
-        'arbitrary double coordinates), corpus and hand-made molecules with random renumbering, reactions over role counts '
+        'arbitrary double coordinates), chains of 1..7 cumulated double bonds with every end pattern (substituted, H only, explicit H, '
+        'metal / dative metal, triple bond), hetero-cumulenes, rings, atoms with > 2 neighbours inside a chain, random double-bond-rich '
+        'graphs, each in random atom / neighbour order and numbering with marks on the perceived stereogenic bonds, '
+        'corpus and hand-made molecules with random renumbering, reactions over role counts '
         'incl. empty sides, all half bit patterns, and the published packs; a case is non-trivial when the molecule has at '
         'least one bond or exercises a non-default atom field; distinct by (stream, canonical request line)')
 TRUSTED = ['pyx2py rendering of _pack_v2.pyx/_unpack_v0v2.pyx (C integer widths, casts, frexp/ldexp)',
-           'gen_packtables translator', 'zlib', 'Spec/PackLayout.lean written by hand from the format docstring']
+           'gen_packtables / gen_packstereo translators', 'zlib', 'Spec/PackLayout.lean written by hand from the format docstring',
+           'Spec/Cumulene.lean written by hand from the IUPAC definition of cumulated double bonds']
 ASSUMPTIONS = ['doubles entering double_to_float16 are finite (NaN/inf excluded)',
                'compiled-C undefined behaviour (reads of uninitialised `seen[]`, out-of-bounds) is not modelled',
-               '`_stereo_cis_trans_terminals` / `_stereo_cis_trans_centers` are taken from chython as inputs']
+               'the label round-trip theorem assumes every marked bond is the centre of a perceived stereogenic unit (MarksOK, a class '
+               'invariant of chython) and that no atom is a key of two units (KeysDisjoint; its failure is the known finding '
+               'C10/roundtrip/bond-stereo/shared-atom); both are evaluated by the driver on every real molecule with marks']
 HAS_DRIVER = True
 EXTRA_MODULES = []
 FINDINGS_MODULE = 'ChythonModel.Findings.C10'
@@ -1522,7 +1531,7 @@ def corr_malformed(ctx):
 
 def correspond(ctx):
     setup()
-    ctx.cov['programs'] = 14  # mol pack/unpack/pack_len, rxn pack/unpack/pack_len, _unpack_v0v2.unpack, double_to_float16, double_from_bytes, chython.unpack/unpach, Molecule/ReactionContainer.unpach, pach/__bytes__
+    ctx.cov['programs'] = 19  # cumulenes, stereogenic_cumulenes, _stereo_cis_trans_terminals, _stereo_cis_trans_centers, _stereo_allenes_terminals, mol pack/unpack/pack_len, rxn pack/unpack/pack_len, _unpack_v0v2.unpack, double_to_float16, double_from_bytes, chython.unpack/unpach, Molecule/ReactionContainer.unpach, pach/__bytes__
     if not ctx.build_ok:
         ctx.notes.append('Lean build failed: driver streams skipped; running the property oracle directly')
         return
